@@ -302,9 +302,25 @@ func evaluate(d *Driver, c Case) failure {
 		f.model = f.impl
 	}
 	if inDomain(c) {
-		f.oracle = c.Oracle(f.impl)
+		f.oracle = guardedOracle(c, f.impl)
 	}
 	return f
+}
+
+// guardedOracle: an oracle calls into the implementation for its references; a panic there is the implementation's (the
+// case's own Run reports panics of the call under test as its outcome) and is reported as the oracle's failure
+// instead of taking the harness down
+func guardedOracle(c Case, impl string) (out string) {
+	defer func() {
+		if e := recover(); e != nil {
+			msg := fmt.Sprint(e)
+			if len(msg) > 200 {
+				msg = msg[:200]
+			}
+			out = "a reference call into the implementation panicked: " + msg
+		}
+	}()
+	return c.Oracle(impl)
 }
 
 func (f failure) failing() string {
@@ -460,7 +476,7 @@ func runStream(p *Property, st *Stream, d *Driver, tier string, seed uint64, rep
 		if !dom {
 			sr.OutOfDomain++
 		} else {
-			f.oracle = c.Oracle(impl[i])
+			f.oracle = guardedOracle(c, impl[i])
 		}
 		if model[i] == "bad-op" {
 			res.Notes = append(res.Notes, "harness bug: driver answered bad-op for "+clip(c.Line(), 200))
